@@ -220,12 +220,13 @@ Print Assumptions C08_register_receives.
 (* ------------------------------------------------------------------ *)
 (* "If the motion fails or spans nothing, the operator changes nothing". *)
 
-(* Every non-linewise object with an EMPTY range (any start/end, in or out of
-   bounds): d, c and their register variants, y, the register yank and the case operators
+(* Every character-wise (not linewise, not block: a block always covers the
+   cell under the cursor, fix 0578190) object with an EMPTY range (any
+   start/end, in or out of bounds): d, c and their register variants, y, the register yank and the case operators
    leave text, cursor, clipboard and registers as they were (c still enters
    insert mode). *)
 Theorem C08_empty_is_noop : forall delete_only with_register F st o ev,
-  is_linew (ttype o) = false -> 0 <= bcur (vbuf st) ->
+  is_linew (ttype o) = false -> is_block (ttype o) = false -> 0 <= bcur (vbuf st) ->
   snd (operator_range (bdoc (vbuf st)) o) <= fst (operator_range (bdoc (vbuf st)) o) ->
   op_delete delete_only with_register st o ev =
     (0, mkvst (vbuf st) (vclip st) (vreg st) (if delete_only then vins st else true)) /\
@@ -233,7 +234,7 @@ Theorem C08_empty_is_noop : forall delete_only with_register F st o ev,
   snd (op_yank_reg st o ev) = st /\
   op_transform F st o ev = (0, st).
 Proof.
-  intros dl wr F st o ev Hl Hc Hr. split; [apply op_delete_empty; assumption|].
+  intros dl wr F st o ev Hl Hb Hc Hr. split; [apply op_delete_empty; assumption|].
   split; [apply op_yank_empty; assumption|].
   split; [apply op_yank_reg_empty; assumption|apply op_transform_empty; exact Hr].
 Qed.
